@@ -508,6 +508,10 @@ func run(args []string) int {
 		r.ID = b.ID
 		enc.Encode(r) // nolint:errcheck
 		w.Flush()
+		if r.Outcome == "hang" {
+			// the abandoned request may spin and allocate for ever: this child is done (the supervisor starts a new one)
+			os.Exit(7)
+		}
 	}
 	return 0
 }
